@@ -584,3 +584,113 @@ func genSpanBatch(r *Rng, prop string) []Op {
 	}
 	return ops
 }
+
+// genMixedLevels (C02): three archives and coarser slots that do not equal the aggregate of
+// what lies under them (written directly, by name), then batches to the finest archive that
+// mix, level-1 slot by level-1 slot, enough points for the slot to be stored, too few, and
+// none — over two or three neighbouring level-2 intervals.  Every level is compared slot for
+// slot after each batch: recomputation goes on to the next level only for slots that were
+// stored, each of them, and for no other.
+func genMixedLevels(r *Rng, prop string) []Op {
+	s0 := r.PickInt([]int{1, 1, 2})
+	r1 := r.PickInt([]int{2, 3, 4, 4})
+	r2 := r.PickInt([]int{2, 3, 4})
+	s1, s2 := s0*r1, s0*r1*r2
+	n0 := r1 * r2 * 3
+	n1 := n0/r1 + r2
+	n2 := n1/r2 + 2 + r.Intn(3)
+	lay := Layout{[]int{s0, s1, s2}, []int{n0, n1, n2}}
+	need := 1 + r.Intn(r1) // points a level-1 slot needs
+	// one level-2 interval kept quiet: under it every batch brings too few points for any
+	// level-1 slot, while the other interval has slots that are stored in the same batch
+	quiet := []int{1, 1, 1, 0, -1, -1}[r.Intn(6)]
+	if quiet >= 0 && need < 2 {
+		need = 2
+	}
+	xf := float32(need) / float32(r1)
+	if r.Chance(1, 4) {
+		xf = []float32{0.5, 0.25, 0.34, 0.75}[r.Intn(4)]
+	}
+	xff := math.Float32bits(xf)
+	agg := 1 + r.Intn(6)
+	now := 1600000000 + r.Intn(100000000)
+	now -= now % s2
+	now += s2 - 1 - r.Intn(s0+1)
+	B := now - now%s2 - s2 // two whole level-2 intervals [B, B+2*s2) within reach of archive 0
+	ops := []Op{{"reset", false}, {fmt.Sprintf("create %s %d %08x", lay, agg, xff), true}}
+	raws := func() {
+		for k := 0; k < 3; k++ {
+			ops = append(ops, Op{fmt.Sprintf("raw %d", k), true})
+		}
+	}
+	// coarser archives written by name
+	if r.Chance(3, 4) {
+		var pts []string
+		for t := B; t < B+2*s2; t += s1 {
+			if r.Chance(1, 2) || (quiet >= 0 && (t-B)/s2 == quiet && r.Chance(3, 4)) {
+				pts = append(pts, fmt.Sprintf("%d:%s", t+r.Intn(s1), genVal(r, false)))
+			}
+		}
+		if len(pts) > 0 {
+			ops = append(ops, Op{fmt.Sprintf("updmany 1 %d %s", now, strings.Join(pts, ",")), true})
+		}
+	}
+	if r.Chance(3, 4) {
+		var pts []string
+		for t := B; t < B+2*s2; t += s2 {
+			if r.Chance(2, 3) {
+				pts = append(pts, fmt.Sprintf("%d:%s", t+r.Intn(s2), genVal(r, false)))
+			}
+		}
+		if len(pts) > 0 {
+			ops = append(ops, Op{fmt.Sprintf("updmany 2 %d %s", now, strings.Join(pts, ",")), true})
+		}
+	}
+	raws()
+	for round := 0; round < 2+r.Intn(2); round++ {
+		var pts []string
+		for t := B; t < B+2*s2 && t <= now; t += s1 {
+			k := 0
+			switch r.Intn(4) {
+			case 0: // none
+			case 1: // one point: too few unless one is enough
+				k = 1
+			case 2: // just enough
+				k = need
+			default:
+				k = 1 + r.Intn(r1)
+			}
+			if quiet >= 0 {
+				if (t-B)/s2 == quiet {
+					k = r.Intn(need) // none, or too few
+					if k == 0 && r.Bool() {
+						k = need - 1
+					}
+				} else if r.Bool() {
+					k = need + r.Intn(r1-need+1)
+				}
+			}
+			perm := r.Perm(r1)
+			for j := 0; j < k; j++ {
+				if tt := t + perm[j]*s0; tt <= now {
+					pts = append(pts, fmt.Sprintf("%d:%s", tt, genVal(r, false)))
+				}
+			}
+		}
+		if len(pts) == 0 {
+			continue
+		}
+		if r.Chance(1, 3) {
+			// not in time order
+			for i := len(pts) - 1; i > 0; i-- {
+				j := r.Intn(i + 1)
+				pts[i], pts[j] = pts[j], pts[i]
+			}
+		}
+		id := []int{0, -1}[r.Intn(2)]
+		ops = append(ops, Op{fmt.Sprintf("updmany %d %d %s", id, now, strings.Join(pts, ",")), true})
+		raws()
+		ops = append(ops, Op{fmt.Sprintf("fetch 2 %d %d %d", B-1, now, now), true}, Op{fmt.Sprintf("fetch 1 %d %d %d", B-1, now, now), true})
+	}
+	return ops
+}
